@@ -162,11 +162,11 @@ type C15ScriptConn struct {
 	ch      chan struct{}
 	flip    map[connectivity.State]connectivity.State
 	reads   map[connectivity.State]int
-	blocked int // waiters parked in WaitForStateChange whose source state is the current state
+	blocked map[connectivity.State]int // waiters parked in WaitForStateChange, per source state
 }
 
 func C15NewScriptConn(s connectivity.State) *C15ScriptConn {
-	return &C15ScriptConn{state: s, ch: make(chan struct{}), flip: map[connectivity.State]connectivity.State{}, reads: map[connectivity.State]int{}}
+	return &C15ScriptConn{state: s, ch: make(chan struct{}), flip: map[connectivity.State]connectivity.State{}, reads: map[connectivity.State]int{}, blocked: map[connectivity.State]int{}}
 }
 
 func (c *C15ScriptConn) setLocked(s connectivity.State) {
@@ -211,11 +211,11 @@ func (c *C15ScriptConn) WaitForStateChange(ctx context.Context, source connectiv
 		return true
 	}
 	ch := c.ch
-	c.blocked++
+	c.blocked[source]++
 	c.mu.Unlock()
 	defer func() {
 		c.mu.Lock()
-		c.blocked--
+		c.blocked[source]--
 		c.mu.Unlock()
 	}()
 	select {
@@ -235,7 +235,7 @@ func (c *C15ScriptConn) Settled() (connectivity.State, bool, map[connectivity.St
 	for k, v := range c.reads {
 		r[k] = v
 	}
-	return c.state, c.blocked > 0, r
+	return c.state, c.blocked[c.state] > 0, r
 }
 
 // C15WatchScripted runs a real stateWatcher's watch loop on conn, wired as
